@@ -507,7 +507,7 @@ func init() {
 		Assumptions: []string{"that AWS honours MinTargetCapacity (all-or-nothing) and readiness polling are not decided"}})
 	register(&propSpec{ID: "C18", Run: checkC18,
 		Explanation: "In the attach step every return of a non-nil error is immediately preceded by a call of the injected terminate function whose argument is, by the chunking invariant, exactly the complement of the chunks already attached (whole input on timeout; rest ∪ failed batch inside the loop; the remainder on the final call); the success return calls no terminate; between a successful CreateFleet and the attach step nothing is dropped; the production caller injects terminateOrphanedInstances, which issues TerminateInstances per batch of ≤ 1000 ids built from the current batch only; the error is returned unchanged up to ScaleUp, which arms the lock only on err == nil.",
-		RuleText:    "R1 terminate-before-error-exit with complement argument, R2 success exit, R3 nothing dropped, R4 terminate chunking, R5 error chain",
+		RuleText:    "R1 terminate-before-error-exit with complement argument, R2 success exit, R3 nothing dropped, R4 terminate chunking, R5 error chain, R6 no attach / terminate call follows a call that may end the process",
 		Assumptions: []string{"failure of the terminate call itself is only logged (statement: \"submitted for termination\")"}})
 	register(&propSpec{ID: "C19", Run: checkC19,
 		Explanation: "In (*aws.NodeGroup).DeleteNodes the terminate call is behind TargetSize > MinSize ∧ TargetSize − len(nodes) ≥ MinSize and the membership test of that very node, is issued at most once per listed node, with ShouldDecrementDesiredCapacity = true and the InstanceId of the ASG instance whose provider id equals the node's; Belongs and the lookup use the same provider-id mapping; a non-member returns *NodeNotInNodeGroup; the delete step deletes from Kubernetes only after the cloud call returned nil; and that error type is propagated unchanged by every frame up to RunForever, whose result main passes to log.Fatal.",
@@ -1007,6 +1007,7 @@ func checkC18(ck *Check) {
 		}
 	}
 	ck.terminateChunking("C18.R4")
+	ck.exitAfterDisposition("C18.R6")
 	// R5 chain upwards
 	for _, ci := range callsTo(a.AwsIncrease, a.AwsOneShot) {
 		ck.returnsCallUnchanged("C18.R5", a.AwsIncrease, ci.(*ssa.Call), 0)
@@ -1762,4 +1763,102 @@ func (ck *Check) fatalErrorCreation(rule string) {
 		}
 	}
 	ck.floor(rule, "creation sites of the not-in-group error", n, 1)
+}
+
+// exitAfterDisposition (C18.R6): on the fleet path a call that can end the process (log.Fatal*,
+// os.Exit, or a repo function / injected function that reaches one) is never followed — in the
+// control flow of the same function — by an attach or terminate call: when the process may exit,
+// every acquired instance has already been attached or submitted for termination.
+func (ck *Check) exitAfterDisposition(rule string) {
+	a := ck.A
+	reach := ck.P.reachCut([]*ssa.Function{a.AwsOneShot}, nil)
+	var fns []*ssa.Function
+	for fn := range reach {
+		if ck.P.inRepo(fn) && fn.Blocks != nil {
+			fns = append(fns, fn)
+		}
+	}
+	sort.Slice(fns, func(i, j int) bool { return funcID(fns[i]) < funcID(fns[j]) })
+	wsite := map[ssa.Instruction]bool{}
+	for _, w := range a.W {
+		if w.Class == "W-ASG-ATT" || w.Class == "W-EC2-TERM" {
+			wsite[w.Call] = true
+		}
+	}
+	mayExit, disposes := map[*ssa.Function]bool{}, map[*ssa.Function]bool{}
+	callExits := func(ci ssa.CallInstruction) bool {
+		if isExitCallee(ci.Common().StaticCallee()) {
+			return true
+		}
+		for _, g := range ck.P.calleesOf(ci) {
+			if mayExit[g] {
+				return true
+			}
+		}
+		return false
+	}
+	callDisposes := func(ci ssa.CallInstruction) bool {
+		if wsite[ci] {
+			return true
+		}
+		for _, g := range ck.P.calleesOf(ci) {
+			if disposes[g] {
+				return true
+			}
+		}
+		return false
+	}
+	for changed := true; changed; {
+		changed = false
+		for _, fn := range fns {
+			for _, ci := range callsIn(fn, nil) {
+				if !mayExit[fn] && callExits(ci) {
+					mayExit[fn], changed = true, true
+				}
+				if !disposes[fn] && callDisposes(ci) {
+					disposes[fn], changed = true, true
+				}
+			}
+		}
+	}
+	var fleet ssa.Instruction
+	for _, w := range a.W {
+		if w.Class == "W-EC2-FLEET" && w.Fn == a.AwsOneShot {
+			fleet = w.Call
+		}
+	}
+	nExit, nDisp := 0, 0
+	for _, fn := range fns {
+		calls := callsIn(fn, nil)
+		ord := 0
+		for _, e := range calls {
+			if !callExits(e) {
+				continue
+			}
+			if fn == a.AwsOneShot && fleet != nil && e != fleet && !reachesWithout(fleet, e, func(ssa.Instruction) bool { return false }) {
+				continue // before the fleet request nothing has been acquired yet
+			}
+			nExit++
+			key := fmt.Sprintf("%s/may-exit#%d:%s", funcID(fn), ord, calleeName(e))
+			ord++
+			var after []string
+			for _, d := range calls {
+				if !callDisposes(d) {
+					continue
+				}
+				if reachesWithout(e, d, func(ssa.Instruction) bool { return false }) {
+					after = append(after, calleeName(d)+" at "+ck.P.instrPos(d))
+				}
+			}
+			ck.cond(len(after) == 0, rule, key, ck.P.instrPos(e), funcID(fn), "no attach / terminate call follows a call that may end the process", "", "the process can exit while acquired instances are still to be submitted: "+strings.Join(after, ", "))
+		}
+		for _, d := range calls {
+			if callDisposes(d) {
+				nDisp++
+			}
+		}
+	}
+	ck.Stats[rule+" may-exit call sites on the fleet path"] = nExit
+	ck.Stats[rule+" disposition call sites on the fleet path"] = nDisp
+	ck.floor(rule, "disposition call sites on the fleet path", nDisp, 4)
 }
